@@ -127,4 +127,19 @@ MUTANTS += [
 MUTANTS += [
     dict(id="c14-revert-fix-D10", props=["C14"], expect="R14e",
          edits=[dict(file=B, old="                            - image_data.size[0]", new="                            - config.bitmap_resolution")]),
+    dict(id="c14-width-in-pixels-ignores-config", props=["C14"], expect="R14f",
+         edits=[dict(file="bitmap_tables.py", old="    width_funits = max(config.width, width_funits)\n", new="")]),
+    dict(id="c14-benign-width-in-pixels-px-domain", props=["C14"], expect="silent",
+         edits=[dict(file="bitmap_tables.py", old="    width_funits = image_data.size[0] * funits / pixels\n    width_funits = max(config.width, width_funits)\n\n    assert width_funits > 0\n    return round(width_funits * pixels / funits)",
+                     new="    width_px = max(config.width * pixels / funits, image_data.size[0])\n    assert width_px > 0\n    return round(width_px)")]),
+    dict(id="c02-ensure-groups-filter-singletons", props=["C02", "C04", "C07"], expect=["R02d", "R07c"],
+         edits=[dict(file="svg.py", old="    # everything that *isn't* shuffling\n", new="    reuse_groups = tuple(g for g in reuse_groups if len(g) > 1)\n    # everything that *isn't* shuffling\n")]),
+    dict(id="c02-rawsvg-strip-style", props=["C02"], expect="R02f",
+         edits=[dict(file="svg.py", old='            .remove_attributes(("enable-background",), inplace=True)', new='            .remove_attributes(("enable-background", "style"), inplace=True)')]),
+    dict(id="c02-rawsvg-pop-fill", props=["C02"], expect="R02f",
+         edits=[dict(file="svg.py", old="        # move all the elements under the new group\n", new="        svg.svg_root.attrib.pop(\"fill\", None)\n        # move all the elements under the new group\n")]),
+    dict(id="c03-compile-ttf-remove-overlaps", props=["C03"], expect="R03f",
+         edits=[dict(file="write_font.py", old='        ttfont = ufo2ft.compileTTF(ufo, overlapsBackend="pathops")', new='        ttfont = ufo2ft.compileTTF(ufo, removeOverlaps=True, overlapsBackend="pathops")')]),
+    dict(id="c03-benign-remove-overlaps-false", props=["C03"], expect="silent",
+         edits=[dict(file="write_font.py", old='        ttfont = ufo2ft.compileTTF(ufo, overlapsBackend="pathops")', new='        ttfont = ufo2ft.compileTTF(ufo, removeOverlaps=False, overlapsBackend="pathops")')]),
 ]
